@@ -1,10 +1,15 @@
 \* C08 exhaustive design check (template: @@..@@ substituted by harness/drivers/c08).
-\* Every behaviour starts by fixing the backend shape and the set of repairs the code has:
+\* Every behaviour starts by fixing the backend (shape, CAS support) and the set of repairs the code has:
 \*   fixes = {} (as-is)  : FindLiveOrDev - every violation of FindLive is explained by a named deviation
-\*   fixes = all four    : Repaired      - FindLive holds and no deviation is reachable
-\*   always              : FindClosed, IndexSound
-\*   INVS = Repaired LookupPure (as-is lookups are read-only)   |   with WLOOKUP = TRUE (the writing-lookup
-\*   design) INVS is empty: FindLive then fails only through the deviation "lookupErased"
+\*   fixes = TreeFixes   : RepairedTree  - atomic events: FindLive and no deviation; store operations in flight
+\*                                         (INFLIGHT = TRUE): only staleIdxWrite / staleIdxDelete
+\*   fixes = all five    : Repaired      - FindLive holds and no deviation is reachable
+\*   always              : FindClosed, IndexSound; StateLiveOrDev, StateClosedOrDev (the cloud-control client
+\*                         runtime state: violated only through stateMovedByLost / stateKeptByKick / stateRebuiltStale),
+\*                         StateRepaired (none reachable with stateAfterDelivery + kickDisconnects)
+\*   INVS = Repaired RepairedTree LookupPure (as-is lookups are read-only)   |   with WLOOKUP = TRUE (the
+\*   writing-lookup design) or another alternative design INVS is empty: FindLive then fails only through
+\*   the design's named deviation
 \* Lifetimes are remaining ticks (TTL = 2, heartbeat period 1 tick): sessions of any length are covered.
 CONSTANTS
   Nodes = @@NODES@@
@@ -14,16 +19,21 @@ CONSTANTS
   MaxClock = 1000
   MaxHist = 99
   Shapes = @@SHAPES@@
+  CasSet = {FALSE}
   FixSets = @@FIXSETS@@
-  Causes = {"peer", "sweep"}
+  Causes = @@CAUSES@@
   KeepCreatedAt = @@KEEPCA@@
   UseRequestId = @@USEREQ@@
+  IdxRenew = "@@IDXRENEW@@"
+  RecRenew = "@@RECRENEW@@"
   Lookups = @@LOOKUPS@@
   WritingLookup = @@WLOOKUP@@
+  InFlight = @@INFLIGHT@@
+  ClientState = @@CSTATE@@
   Emit = FALSE
   Only = "all"
 INIT Init
 NEXT Next
 VIEW view
-INVARIANTS TypeOK IndexSound FindLiveOrDev FindClosed @@INVS@@
+INVARIANTS TypeOK IndexSound FindLiveOrDev FindClosed StateLiveOrDev StateClosedOrDev StateRepaired @@INVS@@
 CHECK_DEADLOCK FALSE
